@@ -318,8 +318,12 @@ class DiskFile(VirtualFileContainer):
                 )
 
                 if preamble.is_ml():
+                    # The postamble follows the data in the stored stream, which may continue in another granule
                     postamble = Postamble()
-                    postamble.read(self.buffer, post_pointer)
+                    stream, _ = self.read_data(
+                        starting_granule.int, fat, None, data_length=preamble.length + data_length + postamble.length
+                    )
+                    postamble.read(stream, preamble.length + data_length)
                     exec_addr = postamble.exec_addr
 
                 coco_file = CoCoFile(
